@@ -33,7 +33,8 @@ def calls():
         for f in ('f1', 'f2'):
             out.append({'op': op, 'file': f, 'sent': 1})
     out.append({'op': 'insert_terminals', 'file': 'f1', 'sent': 2})
-    for op in ('read', 'write', 'extract', 'binarize', 'boyd_split', 'binarize_tree', 'punctuation_delete', 'analysis'):
+    for op in ('read', 'write', 'extract', 'binarize', 'boyd_split', 'binarize_tree', 'punctuation_delete', 'analysis',
+               'read_gf_dash', 'read_gf_hash', 'heads_negra', 'heads_ptb', 'ptb_delete_traces', 'write_brackets_gf'):
         out.append({'op': op, 'file': '~', 'sent': 1})
     out.append({'op': 'write', 'file': '~', 'sent': 2})
     return out
@@ -66,8 +67,12 @@ def run(prop, tier, seed, replay=None):
                     seen.add(k)
                     hists.append(c)
             rnd = random.Random(seed)
-            if tier == 'quick' and len(hists) > 250:
-                hists = rnd.sample(hists, 250)
+            if tier == 'quick':
+                # every ordered pair of calls once (first file assignment), the other assignments sampled
+                f0 = json.dumps(hists[0]['files'], sort_keys=True)
+                first = [h for h in hists if json.dumps(h['files'], sort_keys=True) == f0]
+                rest = [h for h in hists if json.dumps(h['files'], sort_keys=True) != f0]
+                hists = first + rnd.sample(rest, min(len(rest), 150))
             elif len(hists) > 3000:
                 hists = rnd.sample(hists, 3000)
             # fresh-process results, one subprocess per distinct concrete call
